@@ -99,11 +99,19 @@ def r14_1(ctx):
         fb = f.body(fn)
         for loc, st in fb.iter_stmts():
             if "'static':" in str(st.get("rv")):
-                ctx.ob("cone:%s:uses-static" % fn.split("::")[-1], False, fb.where(loc), "the evaluation cone touches a static")
+                # an immutable static without interior mutability that is not thread-local is a named
+                # constant (its initialiser is decoded like a const's in R14.2); anything else is state
+                import re
+                from wa import finiteval
+                names = re.findall(r"'static': '([^']+)'", str(st.get("rv")))
+                ok = bool(names) and all(finiteval.static_is_constant(f, m) for m in names)
+                ctx.ob("cone:%s:uses-static" % fn.split("::")[-1], ok, fb.where(loc),
+                       "the evaluation cone refers to static %s; only immutable, interior-mutability-free, non-thread-local statics (constants) are allowed" % names)
 
 
-class Fold:
-    """Recognise get_evaluation as a fold over the squares visited by two nested counting loops.
+class Nest:
+    """One loop nest of get_evaluation, recognised as a fold over the squares visited by two nested
+    counting loops, under the hypothesis `board.to_move == owner.side`.
 
     The recognition is semantic: the loop nest is cut into its acyclic segments (wa/loopseg.py) and
     every segment is evaluated symbolically.  What is established (or the shape is rejected):
@@ -112,40 +120,49 @@ class Fold:
         sub-slice `a[lo..hi].iter()` with or without `enumerate()`), is left only through its own
         header test, and its counter / iterator is touched by nothing else;
       * the only state that survives an iteration is the loop counters and a set of integer
-        *accumulators*, which start at 0; an accumulator changes only in the innermost body and
-        there by `acc' = acc + c` (c may be negative: a signed running score) where the contribution
-        c reads nothing but the square being visited; no normal return bypasses the nest;
+        *accumulators* (locals, or elements of an integer array at an index fixed by the colour trace),
+        which start at 0; an accumulator changes only in the innermost body and there by
+        `acc' = acc + c` (c may be negative: a signed running score) where the contribution c reads
+        nothing but the square being visited; no normal return bypasses the nest;
       * every contribution is made under exactly the decisions {square is Full, colour of its piece}:
         any other condition on such a path (one that reads a running total, the row, the kind ...)
-        is rejected;
-      * per colour trace there is exactly one contributing path.
+        is rejected.  Values fixed before the nest (a copy of `board`, a `side` parameter computed
+        from the side to move) are resolved by value numbering and, with the hypothesis on the side to
+        move, to constants: `color == side` is then a colour test and `if side == White` is decided;
+      * per colour trace there is at most one contributing path.
     All expressions are normalised to the board coordinates ('item', 0|1) of the square visited, so
     `row - 2` in an index loop and `rank` of an enumerated sub-slice walk are the same index.
     How the source spells this (if-let or match+continue, `acc += e` or via temporaries, a helper
     returning a tuple, an index computed by a `match` on the colour and passed on) is irrelevant."""
 
-    def __init__(self, f):
-        self.f = f
-        b = self.b = f.body(GE)
-        self.ex = Exprs(b)
-        bp = [i for i in range(1, b.arg_count + 1) if b.local_ty(i) == "&board::BoardState"]
-        if len(bp) != 1:
-            raise ShapeNotRecognised("get_evaluation(board: &BoardState)")
-        self.bp = bp[0]
-        loops = b.loops()
-        if len(loops) != 2:
-            raise ShapeNotRecognised("get_evaluation: expected two nested loops, found %d" % len(loops))
-        hs = sorted(loops, key=lambda h: -len(loops[h]))
-        self.outer, self.inner = hs
-        if not loops[self.inner] < loops[self.outer]:
-            raise ShapeNotRecognised("get_evaluation: loops are not nested")
-        self.loops = loops
-        self.loop = loops[self.outer]
-        self.colours = f.enum_variant_by_discr("board::PieceColor")
+    def __init__(self, owner, outer, inner):
+        self.o = owner
+        self.f, self.b, self.ex, self.bp, self.colours = owner.f, owner.b, owner.ex, owner.bp, owner.colours
+        self.outer, self.inner = outer, inner
+        self.loops = owner.loops
+        self.loop = owner.loops[outer]
+        self._invariants()
         self._segments()
         self._counters()
-        self._state()
-        self._contributions()
+
+    def nz(self, e):
+        """Normal form of a segment expression: counters as ('item', k), loop-invariant locals by their
+        value, the side to move by the hypothesis, colour functions of constants evaluated."""
+        return self.o.fold_side(loopseg.subst_simplify(e, self.norm))
+
+    def _invariants(self):
+        """Locals fixed before the nest (one definition, dominating the outer header, pure value:
+        parameters, constants, fields of them, pure crate functions of them) by value numbering."""
+        b, ex = self.b, self.ex
+        rd = b.reaching()
+        self.invariant = {}
+        for l in range(len(b.locals)):
+            sites = rd.all_sites(l)
+            if len(sites) == 1 and sites[0][1] == "whole" and sites[0][0][0] not in self.loop and b.node_dominates(sites[0][0][0], self.outer):
+                v = loopseg.strip_call_locs(ex.local(l, (self.outer, 0)))
+                if _pure_value(v):
+                    self.invariant[loopseg.undef(l)] = self.o.fold_side(v)
+        self.norm = dict(self.invariant)
 
     # -- segments ------------------------------------------------------------------------------------
     NEXT_FNS = ("Range<A>>::next", "<std::iter::Enumerate<I> as std::iter::Iterator>::next",
@@ -186,6 +203,8 @@ class Fold:
         for start in (self.outer, self.inner):
             for blocks, end in loopseg.segments(b, start, cuts, self.loop):
                 env, conds = loopseg.eval_segment(b, blocks, end)
+                if any(self.o.decided(self.nz(c[0]), c) is False for c in conds):
+                    continue        # contradicts the hypothesis on the side to move
                 ht = self._header_test(conds[0]) if conds else None
                 if ht is None:
                     raise ShapeNotRecognised("get_evaluation: the loop headed by bb%d does not start with an iterator `next()` or `counter < bound` test" % start)
@@ -252,28 +271,6 @@ class Fold:
         rd = b.reaching()
         self.counter = {}     # header -> ('iter', iterator local) | ('while', counter local)
         self.ranges = {}      # 0 (outer) | 1 (inner) -> (lo, hi)
-        self.norm = {}
-        # loop-invariant values read in the nest or after it (a copy of the `board` parameter made
-        # for an inlined helper): resolve them by value numbering
-        written = set()
-        reads = set()
-        for segs in self.segs.values():
-            for blocks, end, env, conds in segs:
-                written |= set(env)
-                for v in env.values():
-                    reads |= loopseg.undef_locals(v)
-                for c in conds:
-                    reads |= loopseg.undef_locals(c[0])
-        self.invariant = {}
-        for l in range(len(b.locals)):
-            if l in written:
-                continue
-            sites = rd.all_sites(l)
-            if len(sites) == 1 and sites[0][1] == "whole" and sites[0][0][0] not in self.loop and b.node_dominates(sites[0][0][0], self.outer):
-                v = ex.local(l, (self.outer, 0))
-                if strip_refs(v)[0] in ("arg", "const"):
-                    self.invariant[loopseg.undef(l)] = v
-        self.norm.update(self.invariant)
         for idx, h in enumerate((self.outer, self.inner)):
             if len(self.tests[h]) != 1:
                 raise ShapeNotRecognised("get_evaluation: the loop headed by bb%d is tested in more than one way" % h)
@@ -298,7 +295,7 @@ class Fold:
                     vals = {env.get(l) for blocks, end, env, conds in self.segs["A"]}
                     if len(vals) != 1 or None in vals:
                         raise ShapeNotRecognised("get_evaluation: inner loop iterator `%s` is not set up once per row" % b.lname(l))
-                    e0 = loopseg.subst_simplify(next(iter(vals)), self.norm)
+                    e0 = self.nz(next(iter(vals)))
                 seq = self._decode_seq(e0)
                 if seq is None or loopseg.undef_locals(e0):
                     raise ShapeNotRecognised("get_evaluation: loop iterator `%s` = `%s` is not a constant range or a constant sub-slice walk" % (b.lname(l), show_expr(e0, b)[:70]))
@@ -318,7 +315,7 @@ class Fold:
                     inner_written = {x for kk in ("B", "C") for blocks, end, env, conds in self.segs[kk] for x in env}
                     for x, vs in seen.items():
                         if len(vs) == 1 and x not in inner_written and all(x in env for blocks, end, env, conds in self.segs["A"]):
-                            v = loopseg.subst_simplify(next(iter(vs)), self.norm)
+                            v = self.nz(next(iter(vs)))
                             if not loopseg.undef_locals(v):
                                 self.norm[loopseg.undef(x)] = v
             else:
@@ -374,28 +371,30 @@ class Fold:
         return self.b.lname(c) if isinstance(c, int) else "%s[%s]" % (self.b.lname(c[1]), c[2])
 
     # -- what survives an iteration -----------------------------------------------------------------
-    def _state(self):
-        b = self.b
-        assigned = {}
+    def assigned_cells(self):
+        """cell -> kinds of segments that write it"""
+        out = {}
+        for kind, segs in self.segs.items():
+            for blocks, end, env, conds in segs:
+                for l in env:
+                    out.setdefault(l, set()).add(kind)
+        return out
+
+    def read_cells(self):
         reads = set()
         for kind, segs in self.segs.items():
             for blocks, end, env, conds in segs:
-                for l, v in env.items():
-                    assigned.setdefault(l, set()).add(kind)
+                for v in env.values():
                     reads |= loopseg.undef_cells(v)
                 for c in conds:
                     reads |= loopseg.undef_cells(c[0])
-        # the part after the loop
-        self.tail = []
-        for blocks, dec in enum_paths(b, self.ex, start=self.exit):
-            if b.term(blocks[-1])["k"] != "return":
-                continue
-            env, conds = eval_path(b, blocks)
-            self.tail.append((env.get(0), conds))
-            if env.get(0) is not None:
-                reads |= loopseg.undef_cells(env[0])
-            for c in conds:
-                reads |= loopseg.undef_cells(c[0])
+        return reads
+
+    def finish(self, reads):
+        """`reads`: every cell some segment of some nest, the code between the nests or the tail reads
+        from the state it starts in."""
+        b = self.b
+        assigned = self.assigned_cells()
         rd = b.reaching()
         counters = {l for k, l in self.counter.values()}
         self.accs = []
@@ -422,16 +421,15 @@ class Fold:
                 st = b.stmts(loc[0])
                 init0 = (loc[1] < len(st) and zero(self.ex.rvalue(st[loc[1]]["rv"], loc)) and b.node_dominates(loc[0], self.outer)
                          and not b.node_dominates(self.exit, loc[0]))
-                # (the tail evaluation does not track element writes: an array accumulator is final after the nest)
-                if not (kind == "whole" and (init0 or (not arr and b.node_dominates(self.exit, loc[0])))):
+                # (the tail evaluation does not track element writes: an array accumulator is final after
+                # the nest; a scalar may be rewritten only after the last nest, where the tail sees it)
+                if not (kind == "whole" and (init0 or (not arr and b.node_dominates(self.o.final_exit, loc[0])))):
                     raise ShapeNotRecognised("accumulator `%s` not initialised to 0, or written outside the loop nest (%s)" % (self.cname(l), b.where(loc)))
         # and the fold is not bypassed: every normal return comes after the loop nest
         for r in b.return_blocks():
             if not b.node_dominates(self.outer, r):
                 raise ShapeNotRecognised("get_evaluation can return at %s without running the fold over the squares" % b.where(b.term_loc(r)))
-        if self.invariant:
-            self.tail = [(loopseg.subst(res, self.invariant) if res is not None else None,
-                          [(loopseg.subst(c[0], self.invariant),) + tuple(c[1:]) for c in conds]) for res, conds in self.tail]
+        self._contributions()
 
     # -- what one square contributes, per colour trace -----------------------------------------------
     def _square_of(self, x):
@@ -463,7 +461,8 @@ class Fold:
         sq_variants = self.f.enum_variant_by_discr("board::Square")
         paths = []
         for blocks, end, env, conds in self.segs["B"]:
-            nconds = [(loopseg.subst_simplify(c[0], self.norm),) + tuple(c[1:]) for c in conds[1:]]
+            nconds = [(self.nz(c[0]),) + tuple(c[1:]) for c in conds[1:]]
+            nconds = [c for c in nconds if self.o.decided(c[0], c) is None]      # decided by the hypothesis: not a guard
             # the square this iteration looks at: the subject of every `Square` discriminant test
             holds = set(sq_variants.values())
             rest = []
@@ -500,7 +499,7 @@ class Fold:
             for l in self.accs:
                 if l not in env:
                     continue
-                v = loopseg.subst_simplify(env[l], self.norm)
+                v = self.nz(env[l])
                 le = linear(v)
                 me = loopseg.cell_undef(l)
                 if le is None or le[0].get(me) != 1:
@@ -534,8 +533,8 @@ class Fold:
                 n_contrib[c] += 1
                 self.per_colour[c] = contrib
         for c, n in n_contrib.items():
-            if n != 1:
-                raise ShapeNotRecognised("get_evaluation: a %s piece is scored on %d paths of the loop body (expected exactly one)" % (c, n))
+            if n > 1:
+                raise ShapeNotRecognised("get_evaluation: a %s piece is scored on %d paths of the loop body (expected at most one)" % (c, n))
 
     def affine_bounds(self):
         """{assert block: (holds, detail)} for the bounds checks inside the loop nest whose index is
@@ -547,8 +546,8 @@ class Fold:
                 for bb, akind, ops in loopseg.segment_asserts(self.b, blocks):
                     if akind != "bounds" or len(ops) != 2:
                         continue
-                    ln = strip_refs(loopseg.subst_simplify(ops[0], self.norm))
-                    le = linear(loopseg.subst_simplify(ops[1], self.norm))
+                    ln = strip_refs(self.nz(ops[0]))
+                    le = linear(self.nz(ops[1]))
                     ok, detail = False, "index is not affine in the loop counters"
                     if ln[0] == "const" and le is not None and all(t[0] == "item" for t in le[0]):
                         lo = hi = le[1]
@@ -574,39 +573,201 @@ class Fold:
         return site or b.term_loc(blocks[-1])
 
 
+def _pure_value(e):
+    """An expression built from parameters, constants, their fields and pure (location-free) calls
+    only: its value cannot change while the function runs."""
+    for x in subexprs(e):
+        if x[0] in ("var", "mem", "opaque", "static", "cname", "ovf"):
+            return False
+        if x[0] == "call" and len(x) > 3 and x[3] is not None:
+            return False
+    return True
+
+
+class Fold:
+    """get_evaluation under the hypothesis `board.to_move == side`: a sequence of loop nests (`Nest`),
+    each a fold over the 64 squares (one board walk, or one walk per colour ...), straight-line code
+    between them, and a loop-free tail that combines the accumulators.
+
+    The hypothesis turns every value computed from the side to move (`us`, `them`, a `side` parameter
+    handed to a per-colour pass, `to_move.opposite()`) into a constant colour; colour -> colour
+    functions of the crate are evaluated from their bodies (_colour_fn)."""
+
+    def __init__(self, f, side):
+        self.f = f
+        self.side = side
+        b = self.b = f.body(GE)
+        self.ex = Exprs(b)
+        bp = [i for i in range(1, b.arg_count + 1) if b.local_ty(i) == "&board::BoardState"]
+        if len(bp) != 1:
+            raise ShapeNotRecognised("get_evaluation(board: &BoardState)")
+        self.bp = bp[0]
+        self.colours = f.enum_variant_by_discr("board::PieceColor")
+        self._cfn = {}
+        to_move = ("field", ("deref", ("arg", self.bp)), "to_move")
+        self._side_map = {to_move: ("agg", "board::PieceColor", side, ())}
+        loops = self.loops = b.loops()
+        # pair the loops into nests: every outermost loop contains exactly one other loop
+        outers = [h for h in loops if not any(loops[h] < loops[g] for g in loops)]
+        pairs = []
+        for h in outers:
+            inner = [g for g in loops if loops[g] < loops[h]]
+            if len(inner) != 1:
+                raise ShapeNotRecognised("get_evaluation: a loop nest of depth %d (expected two nested loops per board walk)" % (len(inner) + 1))
+            pairs.append((h, inner[0]))
+        if not pairs:
+            raise ShapeNotRecognised("get_evaluation: expected two nested loops, found %d loops" % len(loops))
+        # they run one after the other, all of them on every path to a return
+        pairs.sort(key=lambda p: sum(1 for q in pairs if b.node_dominates(q[0], p[0])))
+        for (h1, _), (h2, _) in zip(pairs, pairs[1:]):
+            if not b.node_dominates(h1, h2) or h2 in loops[h1]:
+                raise ShapeNotRecognised("get_evaluation: the board walks are not executed one after the other")
+        self.final_exit = None
+        self.nests = [Nest(self, h, g) for h, g in pairs]
+        self.final_exit = self.nests[-1].exit
+        for r in b.return_blocks():
+            for n in self.nests:
+                if not b.node_dominates(n.outer, r):
+                    raise ShapeNotRecognised("get_evaluation can return at %s without running the fold over the squares" % b.where(b.term_loc(r)))
+        self._between_and_tail()
+        reads = set(self.other_reads)
+        for n in self.nests:
+            reads |= n.read_cells()
+        for n in self.nests:
+            n.finish(reads)
+        # one coordinate system for all walks
+        n0 = self.nests[0]
+        for n in self.nests[1:]:
+            if (n.square, n.square_idx, n.ranges) != (n0.square, n0.square_idx, n0.ranges):
+                raise ShapeNotRecognised("get_evaluation: the board walks do not visit the same squares")
+        self.square_idx, self.ranges, self.kind_expr = n0.square_idx, n0.ranges, n0.kind_expr
+        self.accs = [a for n in self.nests for a in n.accs]
+        if len(set(self.accs)) != len(self.accs):
+            raise ShapeNotRecognised("get_evaluation: an accumulator is shared between two board walks")
+        self.per_colour = {c: {} for c in self.colours.values()}
+        self.contrib_where = {}
+        for n in self.nests:
+            for c, d in n.per_colour.items():
+                self.per_colour[c].update(d)
+            self.contrib_where.update(n.contrib_where)
+
+    # -- the hypothesis on the side to move -----------------------------------------------------------
+    def fold_side(self, e):
+        """e with `board.to_move` replaced by the hypothesised colour and crate-local colour -> colour
+        functions of constant colours evaluated."""
+        e = loopseg.subst_simplify(e, self._side_map)
+
+        def walk(x):
+            if not isinstance(x, tuple) or not x:
+                return x
+            y = tuple(walk(z) if isinstance(z, tuple) else z for z in x)
+            if y and y[0] == "call" and len(y[2]) == 1 and self.f.has_body(y[1]):
+                a = strip_refs(y[2][0])
+                if a[0] == "agg" and a[1] == "board::PieceColor" and not a[3]:
+                    if y[1] not in self._cfn:
+                        self._cfn[y[1]] = _colour_fn(self.f, y[1])
+                    m = self._cfn[y[1]]
+                    if m:
+                        return ("agg", "board::PieceColor", m[a[2]], ())
+            return y
+        return walk(e)
+
+    def decided(self, d, c):
+        """Is branch decision c, whose (normalised) discriminant is d, a test between constants?
+        True: it holds, False: it contradicts, None: not decided (a real condition)."""
+        d0 = strip_refs(d)
+        const = lambda x: x[0] == "agg" and x[1] not in ("tuple", "array", "closure") and x[2] and not x[3]
+        if d0[0] == "bin" and d0[1] in ("Eq", "Ne"):
+            x, y = strip_refs(d0[2]), strip_refs(d0[3])
+            if const(x) and const(y) and x[1] == y[1]:
+                truth = (x[2] == y[2]) == (d0[1] == "Eq")
+                tr = cond_truth(c)
+                return None if tr is None else tr == truth
+        if d0[0] == "discr":
+            x = strip_refs(d0[1])
+            if const(x) and x[1] == "board::PieceColor":
+                return x[2] in loopseg.variants_on_path([(d0,) + tuple(c[1:])], lambda y: True, self.colours)
+        return None
+
+    # -- straight-line code between the walks, and the tail --------------------------------------------
+    def _between_and_tail(self):
+        b = self.b
+        later_written = [set() for _ in self.nests]
+        for i in range(len(self.nests)):
+            for n in self.nests[i + 1:]:
+                later_written[i] |= {c if isinstance(c, int) else c[1] for c in n.assigned_cells()}
+        self.other_reads = set()
+        known = {}
+        known.update(self.nests[-1].invariant)
+        for i, (n1, n2) in enumerate(zip(self.nests, self.nests[1:])):
+            paths = []
+            for blocks, dec in enum_paths(b, self.ex, start=n1.exit, stop={n2.outer}):
+                if blocks[-1] != n2.outer:
+                    raise ShapeNotRecognised("get_evaluation: code between two board walks can leave the function")
+                env, conds = eval_path(b, blocks[:-1])
+                if any(self.decided(self.fold_side(loopseg.subst_simplify(c[0], n2.invariant)), c) is False for c in conds):
+                    continue
+                paths.append((env, conds))
+            if len(paths) != 1:
+                raise ShapeNotRecognised("get_evaluation: the code between two board walks branches (%d paths)" % len(paths))
+            env, conds = paths[0]
+            for l, v in env.items():
+                self.other_reads |= loopseg.undef_cells(v)
+                if l not in later_written[i]:
+                    known[loopseg.undef(l)] = loopseg.subst_simplify(v, known)
+        self.tail = []
+        for blocks, dec in enum_paths(b, self.ex, start=self.final_exit):
+            if b.term(blocks[-1])["k"] != "return":
+                continue
+            env, conds = eval_path(b, blocks)
+            res = env.get(0)
+            if res is not None:
+                self.other_reads |= loopseg.undef_cells(res)
+            for c in conds:
+                self.other_reads |= loopseg.undef_cells(c[0])
+            nz = lambda e: self.fold_side(loopseg.subst_simplify(e, known))
+            nconds = [(nz(c[0]),) + tuple(c[1:]) for c in conds]
+            if any(self.decided(c[0], c) is False for c in nconds):
+                continue
+            nconds = [c for c in nconds if self.decided(c[0], c) is None]
+            self.tail.append((nz(res) if res is not None else None, nconds))
+
+    def cname(self, c):
+        return self.nests[0].cname(c)
+
+    def affine_bounds(self):
+        out = {}
+        for n in self.nests:
+            for bb, (ok, d) in n.affine_bounds().items():
+                prev = out.get(bb)
+                out[bb] = (ok and (prev is None or prev[0]), d)
+        return out
+
+
 def _table_values(f, fn):
-    """kind -> 8x8 matrix (or scalar) returned by a per-kind table/value function: every return path
-    is attributed to all the kinds its `match kind` decisions admit (one arm per kind, or-patterns
-    `Pawn | King => 0`, a `_` arm), and every kind must be covered by exactly one value."""
+    """kind -> 8x8 matrix (or scalar) returned by a per-kind table/value function, decided by running
+    the function on every kind (finite instantiation, wa/finiteval.py): a `match` with one arm per
+    kind, or-patterns, a lookup array indexed by `kind.index()`, `const` or immutable `static`
+    tables all evaluate alike.  An index out of range, a loop, an unknown callee or a value that is
+    not an integer / integer matrix is rejected."""
+    from wa import finiteval
+    from wa.interp import Unknown
     b = f.body(fn)
-    ex = Exprs(b)
-    kinds = f.enum_variant_by_discr("board::PieceKind")
+    if b.arg_count != 1 or b.local_ty(1) != "board::PieceKind":
+        raise ShapeNotRecognised("%s is not a function of one PieceKind" % fn)
     out = {}
-    for blocks, dec in enum_paths(b, ex):
-        if b.term(blocks[-1])["k"] != "return":
-            continue
-        admitted = set(kinds.values())
-        for d, (vals, oth) in dec.items():
-            d0 = strip_refs(d)
-            if d0[0] == "discr" and strip_refs(d0[1]) == ("arg", 1):
-                here = {kinds[v] for v in vals if v in kinds}
-                admitted &= (set(kinds.values()) - here) if oth else here
-            else:
-                raise ShapeNotRecognised("%s: branches on `%s`, not only on its kind" % (fn, show_expr(d, b)[:50]))
-        env, conds = eval_path(b, blocks)
-        r = strip_refs(env.get(0, ("opaque", "")))
-        if r[0] == "const":
-            val = r[1]
-        elif r[0] == "agg" and r[1] == "array":
-            val = [[c[1] for c in row[3]] for row in r[3]]
+    for kind in f.enum_variant_by_discr("board::PieceKind").values():
+        try:
+            v = finiteval.run_fn(f, fn, [finiteval.enum_value("board::PieceKind", kind)])
+        except Unknown as e:
+            raise ShapeNotRecognised("%s(%s) cannot be evaluated: %r" % (fn, kind, e))
+        isint = lambda x: isinstance(x, int) and not isinstance(x, bool)
+        if isint(v):
+            out[kind] = v
+        elif isinstance(v, list) and v and all(isinstance(r, list) and r and all(isint(x) for x in r) for r in v):
+            out[kind] = v
         else:
-            raise ShapeNotRecognised("%s: unrecognised return %s" % (fn, show_expr(r, b)[:60]))
-        for k in admitted:
-            if k in out and out[k] != val:
-                raise ShapeNotRecognised("%s: two values for %s" % (fn, k))
-            out[k] = val
-    if set(out) != set(kinds.values()):
-        raise ShapeNotRecognised("%s: kinds covered %s" % (fn, sorted(out)))
+            raise ShapeNotRecognised("%s(%s): unrecognised return %r" % (fn, kind, str(v)[:60]))
     return out
 
 
@@ -720,83 +881,89 @@ def _nonneg(P, is_phase_total):
 def r14_2(ctx):
     """Mirror identity and the rest of the symmetry/bound argument."""
     f = ctx.facts
-    fold = Fold(f)
+    colour_names = sorted(f.enum_variant_by_discr("board::PieceColor").values())
+    # the whole recognition is done once per hypothesis on the side to move
+    folds = {S: Fold(f, S) for S in colour_names}
+    fold = folds["White"]
     b = fold.b
     ctx.note_fn(GE)
+    for S, fo in folds.items():
+        if (fo.square_idx, fo.ranges, fo.kind_expr, fo.accs) != (fold.square_idx, fold.ranges, fold.kind_expr, fold.accs):
+            raise ShapeNotRecognised("get_evaluation: the board walk differs with the side to move (other squares or other accumulators)")
     rank, file_ = fold.square_idx
-    # ---- what each accumulator receives on each colour trace
-    # a *phase* accumulator receives P(kind) whatever the colour; every other accumulator is a *score*
-    # accumulator: it receives +-(table cell + value) terms, one way or another (one accumulator per
-    # (table, colour), or one signed white-relative total per table, ...)
-    contrib = {c: dict(d) for c, d in fold.per_colour.items()}     # colour -> acc -> (terms, const)
-    phase = {}       # acc -> colour -> (fn, kinds)
+    # ---- what each accumulator receives from a piece: side to move -> colour of the piece -> acc -> (terms, const)
+    contrib = {S: {c: dict(d) for c, d in fo.per_colour.items()} for S, fo in folds.items()}
     kinds_used = []
-    for l in fold.accs:
-        cls = {c: _classify(f, *contrib[c][l]) for c in contrib if l in contrib[c]}
-        if cls and all(x is not None and x[0] == "phase" for x in cls.values()):
-            phase[l] = {c: (x[1], x[2]) for c, x in cls.items()}
-            kinds_used += [k for x in cls.values() for k in x[2]]
-    for l, d in sorted(phase.items()):
-        ctx.ob("phase:%s:colour-independent" % fold.cname(l), set(d) == {"White", "Black"} and d["White"] == d["Black"], fold.contrib_where.get(l, b.file),
-               "`%s` receives %s on the colour traces; it must be the same for both colours" % (
-                   fold.cname(l), {c: "%s(kind)" % v[0].split("::")[-1] for c, v in sorted(d.items())}))
-    phase_accs = sorted(phase)
-    score_accs = [l for l in fold.accs if l not in phase]
-    # ---- tail: side arms and blend (loop-free part after the loop nest)
-    bp = fold.bp
-    is_side = lambda x: x[0] == "field" and x[2] == "to_move" and strip_refs(x[1]) == ("arg", bp)
+
     def acc_local(t):
-        """The accumulator cell a term of the tail denotes (its value when the loop nest is left)."""
+        """The accumulator cell a term of the tail denotes (its value when its loop nest is left)."""
         cs = loopseg.undef_cells(t)
-        return next(iter(cs)) if len(cs) == 1 and loopseg.cell_undef(next(iter(cs))) == t else None
-    is_phase_total = lambda t: acc_local(t) in phase_accs
-    colour_names = set(fold.colours.values())
-    cfn = {}
+        c = next(iter(cs)) if len(cs) == 1 else None
+        return c if c in fold.accs and loopseg.cell_undef(c) == t else None
 
-    def side_image(x):
-        """x is the side to move, or a total colour -> colour function of it (`to_move.opposite()`,
-        evaluated from that function's body): {side to move: value of x}, else None."""
-        x = strip_refs(x)
-        if is_side(x):
-            return {c: c for c in colour_names}
-        if x[0] == "call" and f.has_body(x[1]) and len(x[2]) == 1:
-            inner = side_image(x[2][0])
-            if inner is None:
+    def per_piece(lf, S, colour):
+        """What one piece of `colour` adds, with `S` to move, to the quantity with linear form `lf`
+        over the accumulators: sum_l lf[l] * contribution(l, S, colour), as (terms, const); None if
+        lf is not a combination of accumulators."""
+        if lf is None or lf[1] != 0 or not lf[0]:
+            return None
+        out, const = {}, 0
+        for t, a in lf[0].items():
+            l = acc_local(t)
+            if l is None:
                 return None
-            if x[1] not in cfn:
-                cfn[x[1]] = _colour_fn(f, x[1])
-            m = cfn[x[1]]
-            return {s_: m[v] for s_, v in inner.items()} if m else None
-        return None
+            terms, k0 = contrib[S][colour].get(l, ({}, 0))
+            const += a * k0
+            for x, cx in terms.items():
+                out[x] = out.get(x, 0) + a * cx
+        return {x: cx for x, cx in out.items() if cx != 0}, const
 
-    def side_test(c):
-        """(subject, image) if branch decision c tests the side to move (directly or through a colour function)."""
-        d0 = strip_refs(c[0])
-        cands = [d0[1]] if d0[0] == "discr" else ([d0[2], d0[3]] if (d0[0] == "bin" and d0[1] in ("Eq", "Ne")) else [])
-        for x in cands:
-            x = strip_refs(x)
-            im = side_image(x)
-            if im is not None and loopseg.is_variant_test(c, lambda y: y == x):
-                return x, im
-        return None
+    phase_fns = set()
+    ptot = {}
 
+    def is_phase_total(e):
+        """e is a colour-blind, side-blind piece count: whatever the side to move and the colour of a
+        piece, the piece adds P(kind) to it (one phase accumulator, or `own_phase + opp_phase` ...)."""
+        e = strip_refs(e)
+        if e not in ptot:
+            got = set()
+            for S in colour_names:
+                for colour in colour_names:
+                    pp = per_piece(linear(e), S, colour)
+                    cls = _classify(f, *pp) if pp else None
+                    got.add((cls[1], cls[2]) if cls and cls[0] == "phase" else None)
+            ptot[e] = len(got) == 1 and None not in got
+            if ptot[e]:
+                fn, kinds = next(iter(got))
+                phase_fns.add(fn)
+                kinds_used.extend(kinds)
+        return ptot[e]
+
+    def phase_only(e):
+        """constants, phase totals and minima of them"""
+        e = strip_refs(e)
+        if e[0] == "const":
+            return True
+        if e[0] == "call" and e[1] in MIN_FNS:
+            return all(phase_only(a) for a in e[2])
+        return is_phase_total(e)
+
+    def phase_totals_in(e):
+        e = strip_refs(e)
+        if e[0] == "const":
+            return []
+        if e[0] == "call" and e[1] in MIN_FNS:
+            return [x for a in e[2] for x in phase_totals_in(a)]
+        return [e]
+
+    # ---- tail: side arms and blend (loop-free part after the last loop nest), per side to move
     results = {}
-    for res, conds in fold.tail:
-        sides = set(colour_names)
-        other = []
-        for c in conds:
-            stt = side_test(c)
-            if stt is None:
-                other.append(c)
-                continue
-            x, im = stt
-            allowed = loopseg.variants_on_path([c], lambda y: y == x, fold.colours)
-            sides = {s_ for s_ in sides if im[s_] in allowed}
-        key = frozenset((c[0], cond_truth(c), tuple(c[1])) for c in other)
-        for s in sorted(sides):
-            results[(s, key)] = (res, other)
+    for S, fo in folds.items():
+        for res, other in fo.tail:
+            key = frozenset((c[0], cond_truth(c), tuple(c[1])) for c in other)
+            results[(S, key)] = (res, other)
     sides = {k[0] for k in results}
-    ctx.ob("side-arms:both-present", sides == {"White", "Black"}, b.file, "result computed on traces %s of board.to_move" % sorted(map(str, sides)))
+    ctx.ob("side-arms:both-present", sides == set(colour_names), b.file, "result computed on traces %s of board.to_move" % sorted(map(str, sides)))
 
     def decompose(res):
         """res = (MG*P + EG*(C - P)) / C -> (MG, EG, P, C) modulo commutativity."""
@@ -854,29 +1021,13 @@ def r14_2(ctx):
                "phase weight p = %s lies in [0, %d] on this path (upper bound %s): the blend is a convex combination of the two phase scores" % (show_expr(P, b)[:40], C, ub))
         # every other decision of the tail is a function of the colour-free phase total
         for c in other:
-            leaves = {x for x in subexprs(c[0]) if x[0] in ("var", "opaque", "arg", "field", "call")}
-            ok = all(is_phase_total(x) or (x[0] == "call" and x[1] in MIN_FNS) for x in leaves)
+            d = strip_refs(c[0])
+            ok = d[0] == "bin" and d[1] in neg and phase_only(d[2]) and phase_only(d[3])
             ctx.ob("blend:condition-colour-free:%s%s" % (side, suffix[key]), ok, b.file, "the tail branches on `%s`" % show_expr(c[0], b)[:60])
-
-    def per_piece(lf, colour):
-        """What a piece of `colour` adds to the phase score with linear form `lf` over the
-        accumulators: sum_l lf[l] * contribution(l, colour), as (terms, const); None if lf is not a
-        combination of score accumulators."""
-        if lf is None or lf[1] != 0 or not lf[0]:
-            return None
-        out, const = {}, 0
-        for t, a in lf[0].items():
-            l = acc_local(t)
-            if l not in score_accs:
-                return None
-            terms, k0 = contrib[colour].get(l, ({}, 0))
-            const += a * k0
-            for x, cx in terms.items():
-                out[x] = out.get(x, 0) + a * cx
-        return {x: cx for x, cx in out.items() if cx != 0}, const
 
     # antisymmetry: White forms are the negation of Black forms; phase weight identical;
     # orientation: with White to move each phase score is (white pieces' terms) - (black pieces' terms)
+    named_totals = set()
     tabs = {}       # 'mg' | 'eg' -> (classification of a white piece's term, of a black piece's negated term)
     for key in keys:
         sfx = suffix[key]
@@ -887,13 +1038,18 @@ def r14_2(ctx):
             ctx.ob("side-arms:paired%s" % sfx, False, b.file, "a path of the tail exists for only one side to move (conditions %s)" % [show_expr(c[0], b)[:40] for c in key])
             continue
 
-        def neg(lf):
-            return ({t: -c for t, c in lf[0].items()}, -lf[1]) if lf else None
-        ok = w[0] is not None and k[0] is not None and neg(w[0]) == k[0] and neg(w[1]) == k[1] and w[2] == k[2] and w[3] == k[3]
+        # per piece: what it adds to a phase score with Black to move is the negation of what it adds
+        # with White to move (for two-sided accumulators that is `b - w` against `w - b`; for a per-side
+        # pass `own - opp` it is the pass parameter that changes with the side)
+        ok = w[2] == k[2] and w[3] == k[3]
+        for i in (0, 1):
+            for colour in colour_names:
+                pw_, pk_ = per_piece(w[i], "White", colour), per_piece(k[i], "Black", colour)
+                ok = ok and pw_ is not None and pk_ is not None and pk_ == ({x: -c for x, c in pw_[0].items()}, -pw_[1])
         ctx.ob("side-arms:antisymmetric%s" % sfx, bool(ok), b.file,
-               "with Black to move both phase scores are the negation of those with White to move, and the phase weight is the same")
+               "with Black to move every piece adds to both phase scores the negation of what it adds with White to move, and the phase weight is the same")
         for i, nm in enumerate(("mg", "eg")):
-            pw, pb = per_piece(w[i], "White"), per_piece(w[i], "Black")
+            pw, pb = per_piece(w[i], "White", "White"), per_piece(w[i], "White", "Black")
             cw = _classify(f, *pw) if pw else None
             cb = _classify(f, {x: -c for x, c in pb[0].items()}, -pb[1]) if pb else None
             ok = bool(cw and cb and cw[0] == "table" and cb[0] == "table" and cw[1] == cb[1])
@@ -904,8 +1060,13 @@ def r14_2(ctx):
                        nm, _show_terms(pw, b), _show_terms(pb, b)))
         # phase weight: function of the phase accumulator only
         P = w[2]
-        pl = {x for x in subexprs(P) if x[0] in ("var", "opaque", "arg", "field")}
-        ctx.ob("blend:phase-weight-colour-free%s" % sfx, all(is_phase_total(t) or t[0] == "const" for t in pl), b.file, "phase weight p = %s" % show_expr(P, b)[:50])
+        ctx.ob("blend:phase-weight-colour-free%s" % sfx, phase_only(P), b.file, "phase weight p = %s" % show_expr(P, b)[:50])
+        for e in phase_totals_in(P):
+            if e not in named_totals:
+                named_totals.add(e)
+                accs_in = sorted(fold.cname(c) for c in loopseg.undef_cells(e))
+                ctx.ob("phase:%s:colour-independent" % "+".join(accs_in), is_phase_total(e), b.file,
+                       "whatever its colour and the side to move, a piece adds the same phase weight P(kind) to `%s`" % show_expr(e, b)[:60])
     # ---- mirror identity per table
     by_T = {}
     for nm, (cw, cb) in sorted(tabs.items()):
@@ -919,8 +1080,9 @@ def r14_2(ctx):
            reason="shape-not-recognised")
     if not shape_ok:
         return
-    where = {T: next((fold.contrib_where[l] for l in score_accs if l in contrib.get("Black", {}) and any(
-        strip_refs(x[1][1])[1] == T for x in contrib["Black"][l][0] if x[0] == "index" and x[1][0] == "index" and strip_refs(x[1][1])[0] == "call")), b.file) for T in by_T}
+    cb_ = contrib["White"]["Black"]
+    where = {T: next((fold.contrib_where[l] for l in fold.accs if l in cb_ and l in fold.contrib_where and any(
+        strip_refs(x[1][1])[1] == T for x in cb_[l][0] if x[0] == "index" and x[1][0] == "index" and strip_refs(x[1][1])[0] == "call")), b.file) for T in by_T}
     item_name = {("item", rank): "row", ("item", file_): "col"}
     for T, (d,) in sorted(by_T.items()):
         uw, ub = d["White"], d["Black"]
@@ -975,8 +1137,8 @@ def r14_2(ctx):
                nsq, M, total, margin, mate - margin))
     # phase values and overflow
     pmax = 0
-    for l, d in sorted(phase.items()):
-        pv = _table_values(f, d[sorted(d)[0]][0])
+    for pfn in sorted(phase_fns):
+        pv = _table_values(f, pfn)
         pmax = max(pmax, max(pv.values()) * nsq)
         ctx.ob("phase:bounded", min(pv.values()) >= 0 and pmax < 2**31, b.file, "phase per piece in [%d, %d]" % (min(pv.values()), max(pv.values())))
     # running totals: |accumulator| <= squares x largest |contribution| it can receive from one piece
@@ -991,16 +1153,17 @@ def r14_2(ctx):
             cache[c[0]] = max(max(abs(x) for r in v for x in r) if isinstance(v, list) else abs(v) for v in tv.values())
         return cache[c[0]]
     acc_max = 0
-    for l in score_accs:
-        for colour in contrib:
-            terms, k0 = contrib[colour].get(l, ({}, 0))
-            bs = [term_bound(t) for t in terms]
-            if any(x is None for x in bs):
-                acc_max = None
-                break
-            acc_max = max(acc_max, nsq * (abs(k0) + sum(abs(c) * x for c, x in zip(terms.values(), bs))))
-        if acc_max is None:
-            break
+    for l in fold.accs:
+        for S in contrib:
+            for colour in contrib[S]:
+                if acc_max is None:
+                    break
+                terms, k0 = contrib[S][colour].get(l, ({}, 0))
+                bs = [term_bound(t) for t in terms]
+                if any(x is None for x in bs):
+                    acc_max = None
+                    break
+                acc_max = max(acc_max, nsq * (abs(k0) + sum(abs(c) * x for c, x in zip(terms.values(), bs))))
     C = next(iter(forms.values()))[3] if forms else 24
     big = max(total, acc_max or 0)
     worst = 2 * big * max(C, pmax) * 2
@@ -1009,7 +1172,10 @@ def r14_2(ctx):
     # in-bounds: every bounds assert by intervals
     # (by intervals, or - inside the loop nest - by evaluating the affine index over the counter ranges)
     iv = Intervals(b)
-    aff = fold.affine_bounds()
+    aff = {}
+    for fo in folds.values():       # a check must hold under every hypothesis whose segments contain it
+        for bb, (ok, d) in fo.affine_bounds().items():
+            aff[bb] = (ok and aff.get(bb, (True,))[0], d)
     nb = 0
     for bb in b.normal:
         if bb in b.reachable and b.term(bb)["k"] == "assert" and b.term(bb)["assert_kind"] == "bounds":
